@@ -60,6 +60,7 @@ type Scenario struct {
 	Peers       int            `json:"peers,omitempty"`
 	StallAt     int            `json:"stall_at,omitempty"` // tcp, one peer: before its n-th frame (1-based) the peer sends only StallOctets of it, pauses longer than the server\'s read timeout, then carries on
 	StallOctets int            `json:"stall_octets,omitempty"`
+	Trickle     bool           `json:"trickle,omitempty"`    // the stalled frame arrives in three pieces, 1.5 and 1 read timeouts apart (each piece makes progress, none arrives in time)
 	CutAt       int            `json:"cut_at,omitempty"`     // tcp, one peer: its n-th frame (1-based) announces its full length but only CutOctets of the body are sent before the peer closes
 	CutOctets   int            `json:"cut_octets,omitempty"` // body octets sent (chosen on a question / record boundary as often as not)
 	ShutAfter   int            `json:"shut_after,omitempty"` // udp: Shutdown is called after this many steps, while peers are still sending (0 = after they are done)
@@ -163,6 +164,7 @@ func Gen(seed uint64, tier string) any {
 		sc.StallAt = 1 + r.IntN(len(sc.Msgs))
 		b, _ := hex.DecodeString(sc.Msgs[sc.StallAt-1].Hex)
 		sc.StallOctets = r.IntN(len(b) + 2)
+		sc.Trickle = core.Chance(r, 40)
 	}
 	if sc.Transport == "tcp" && sc.StallAt == 0 && core.Chance(r, 15) {
 		// a peer that goes away in the middle of a frame: the message it had begun is not a message the server received
@@ -478,13 +480,23 @@ func (p *peerTask) RunEvent(time.Time) {
 			sentFrames++
 			if a.sc.StallAt == sentFrames {
 				k.Bump("fault.peer_stalls_mid_frame")
-				if n := min(a.sc.StallOctets, len(fr)); n > 0 {
-					if _, err := sconn.Write(fr[:n]); err != nil {
-						break
+				if a.sc.Trickle && len(fr) >= 8 {
+					n1, n2 := 2+(len(fr)-2)/3, 2+2*(len(fr)-2)/3
+					sconn.Write(fr[:n1])
+					k.Sleep("peer.trickle", stallTimeout*3/2)
+					sconn.Write(fr[n1:n2])
+					k.Sleep("peer.trickle", stallTimeout)
+					fr = fr[n2:]
+					k.Bump("fault.peer_trickles_frame")
+				} else {
+					if n := min(a.sc.StallOctets, len(fr)); n > 0 {
+						if _, err := sconn.Write(fr[:n]); err != nil {
+							break
+						}
+						fr = fr[n:]
 					}
-					fr = fr[n:]
+					k.Sleep("peer.stall", 3*stallTimeout)
 				}
-				k.Sleep("peer.stall", 3*stallTimeout)
 			}
 			if a.sc.CutAt == sentFrames {
 				// announce the whole message, send part of it, go away
